@@ -24,9 +24,21 @@ macro_rules! harnesses {
 pub mod c35;
 pub mod c06;
 pub mod c15;
+pub mod kstep;
+pub mod c08;
+pub mod kfam;
+pub mod c09;
+pub mod c14;
+pub mod c16;
+pub mod c27;
+pub mod c28;
+pub mod c32;
+pub mod c33;
+pub mod c34;
+pub mod probe;
 
 pub fn tables() -> Vec<&'static [(&'static str, fn())]> {
-    vec![c35::TABLE, c06::TABLE, c15::TABLE]
+    vec![c35::TABLE, c06::TABLE, c15::TABLE, c08::TABLE, c09::TABLE, c14::TABLE, c16::TABLE, c27::TABLE, c28::TABLE, c32::TABLE, c33::TABLE, c34::TABLE, probe::TABLE]
 }
 
 pub fn lookup(name: &str) -> Option<fn()> {
